@@ -70,6 +70,7 @@ type c15Disp struct {
 	pkg     *Package
 	mu      sync.Mutex
 	handler []string
+	argSnap string // what the handler received (parameters and body), rendered
 	reqSnap any
 	errs    []error
 	nf, na  int
@@ -90,12 +91,16 @@ func (d *c15Disp) Call(iface, method string, args []any) []any {
 		d.handler = append(d.handler, method)
 		fail := d.fail
 		d.mu.Unlock()
-		// read streaming bodies like a real handler would
+		// read streaming bodies like a real handler would; keep what arrived
+		var got []string
 		for _, a := range args[1:] {
-			if a != nil && hasReader(reflect.TypeOf(a), 0) {
-				Snap(a)
+			if a != nil {
+				got = append(got, Descr(Snap(a)))
 			}
 		}
+		d.mu.Lock()
+		d.argSnap = strings.Join(got, " | ")
+		d.mu.Unlock()
 		if fail {
 			return []any{nil, errHandler}
 		}
@@ -133,7 +138,7 @@ func (d *c15Disp) errorHandler(ctx context.Context, w http.ResponseWriter, r *ht
 
 func (d *c15Disp) reset(fail bool) {
 	d.mu.Lock()
-	d.handler, d.errs, d.nf, d.na, d.fail = nil, nil, 0, 0, fail
+	d.handler, d.errs, d.nf, d.na, d.fail, d.argSnap = nil, nil, 0, 0, fail, ""
 	d.mu.Unlock()
 }
 
@@ -287,7 +292,10 @@ func c15Pkg(r *ev.Run, pc *C15Pkg) error {
 	}
 	r.Count("valid_requests_captured", len(caps))
 
+	// lastArgs: what the handler received in the latest serve call ("" when it did not run)
+	lastArgs := ""
 	serve := func(raw []byte, hand *http.Request, class string, fail bool) {
+		lastArgs = ""
 		var req *http.Request
 		if hand != nil {
 			req = hand
@@ -311,6 +319,9 @@ func c15Pkg(r *ev.Run, pc *C15Pkg) error {
 		}
 		disp.mu.Lock()
 		handler := append([]string(nil), disp.handler...)
+		if len(handler) > 0 {
+			lastArgs = handler[0] + ": " + disp.argSnap
+		}
 		errs := append([]error(nil), disp.errs...)
 		nf, na := disp.nf, disp.na
 		disp.mu.Unlock()
@@ -447,8 +458,29 @@ func c15Pkg(r *ev.Run, pc *C15Pkg) error {
 	}
 	// 3. byte-level mutants
 	for _, c := range caps {
+		serve(c.raw, nil, "valid", false)
+		base := lastArgs
 		for _, m := range c15Mutants(c.raw, rng, pc.Muts) {
 			serve(m.raw, nil, m.class, false)
+			if m.class == "query-repeated-other-value" && base != "" && lastArgs == base {
+				// is the repeated key an operation parameter at all? A security credential in the query is not
+				// (the security handler takes the first value); dropping an operation parameter changes what the
+				// handler receives or gets the request refused with a parameter error
+				got := lastArgs
+				key := repeatedKey(m.raw)
+				serve(dropQueryKey(c.raw, key), nil, "query-param-dropped", false)
+				credential := lastArgs == base || (lastArgs == "" && disp.lastErrIsSecurity())
+				lastArgs = got
+				if credential {
+					r.Count("repeated_query_credentials_not_judged", 1)
+					continue
+				}
+			}
+			if (m.class == "query-repeated-other-value" || m.class == "form-field-repeated-other-value") && base != "" && lastArgs == base {
+				// a second, different value for a parameter or form field: either the request is refused (a scalar) or
+				// the handler sees the extra value (an array); the same arguments as without it means it was dropped
+				r.Violate("serve/repeated-value-silently-ignored", fmt.Sprintf("%s [%s]: the handler ran with exactly the arguments of the request without the repeated value: %s", pc.Origin, m.class, clip(m.raw)), map[string]any{"origin": pc.Origin, "class": m.class, "request": clip(m.raw), "handler_received": clip([]byte(lastArgs))})
+			}
 		}
 	}
 	// 4. hand-built requests that bypass net/http's URL validation
@@ -570,6 +602,7 @@ func c15Mutants(raw []byte, rng *ev.Rand, n int) []c15Mut {
 			add(rebuild(append([]string{rl[0] + " " + rl[1][:i] + " " + rl[2]}, lines[1:]...), body), "query-dropped")
 			for _, kv := range strings.Split(rl[1][i+1:], "&") {
 				add(rebuild(append([]string{rl[0] + " " + rl[1] + "&" + kv + " " + rl[2]}, lines[1:]...), body), "query-duplicated")
+				add(rebuild(append([]string{rl[0] + " " + rl[1] + "&" + strings.SplitN(kv, "=", 2)[0] + "=zz9 " + rl[2]}, lines[1:]...), body), "query-repeated-other-value")
 				add(rebuild(append([]string{rl[0] + " " + strings.Replace(rl[1], kv, strings.SplitN(kv, "=", 2)[0]+"=%ff%fe", 1) + " " + rl[2]}, lines[1:]...), body), "query-corrupted")
 				add(rebuild(append([]string{rl[0] + " " + strings.Replace(rl[1], kv, "", 1) + " " + rl[2]}, lines[1:]...), body), "query-param-dropped")
 			}
@@ -644,6 +677,13 @@ func c15Mutants(raw []byte, rng *ev.Rand, n int) []c15Mut {
 			}
 		}
 	}
+	if bytes.Contains(bytes.ToLower(head), []byte("application/x-www-form-urlencoded")) && len(body) > 0 && !chunked {
+		for _, kv := range strings.Split(string(body), "&") {
+			if k := strings.SplitN(kv, "=", 2)[0]; k != "" {
+				add(withLen([]byte(string(body)+"&"+k+"=zz9")), "form-field-repeated-other-value")
+			}
+		}
+	}
 	if bytes.Contains(head, []byte("multipart/form-data")) {
 		add(setHeader("Content-Type", "multipart/form-data; boundary=wrongboundary", body), "multipart-boundary")
 		add(setHeader("Content-Type", "multipart/form-data", body), "multipart-boundary")
@@ -674,4 +714,61 @@ func c15Mutants(raw []byte, rng *ev.Rand, n int) []c15Mut {
 		add(b, "random-bytes")
 	}
 	return out
+}
+
+// repeatedKey: the key of the last key=value pair of the request target's query.
+func repeatedKey(raw []byte) string {
+	line := string(raw)
+	if i := strings.Index(line, "\r\n"); i >= 0 {
+		line = line[:i]
+	}
+	rl := strings.SplitN(line, " ", 3)
+	if len(rl) != 3 {
+		return ""
+	}
+	q := rl[1]
+	if i := strings.IndexByte(q, '?'); i >= 0 {
+		q = q[i+1:]
+	}
+	parts := strings.Split(q, "&")
+	return strings.SplitN(parts[len(parts)-1], "=", 2)[0]
+}
+
+// dropQueryKey removes every key=value pair with that key from the request target.
+func dropQueryKey(raw []byte, key string) []byte {
+	i := bytes.Index(raw, []byte("\r\n"))
+	if i < 0 {
+		return raw
+	}
+	rl := strings.SplitN(string(raw[:i]), " ", 3)
+	if len(rl) != 3 {
+		return raw
+	}
+	path, q := rl[1], ""
+	if j := strings.IndexByte(path, '?'); j >= 0 {
+		path, q = path[:j], path[j+1:]
+	}
+	var keep []string
+	for _, kv := range strings.Split(q, "&") {
+		if strings.SplitN(kv, "=", 2)[0] != key && kv != "" {
+			keep = append(keep, kv)
+		}
+	}
+	t := path
+	if len(keep) > 0 {
+		t += "?" + strings.Join(keep, "&")
+	}
+	return append([]byte(rl[0]+" "+t+" "+rl[2]), raw[i:]...)
+}
+
+func (d *c15Disp) lastErrIsSecurity() bool {
+	d.mu.Lock()
+	defer d.mu.Unlock()
+	for _, e := range d.errs {
+		var sec *ogenerrors.SecurityError
+		if errors.As(e, &sec) {
+			return true
+		}
+	}
+	return false
 }
